@@ -1,45 +1,90 @@
-"""Concrete-input search for a failed Verus obligation (Verus gives no counterexample).
+"""Concrete-input search against the REAL code for a unit whose Verus run failed or was undecided.
 
-A unit may ship `units/<unit>/witness/` - a small cargo project linked against the real crate in /repo
-(path dependency) whose `main` evaluates an executable mirror of the unit's top-level postconditions on a
-boundary lattice and prints one JSON line `{"fn":..., "input":..., "observed":..., "expected":...}` for the
-first input where the real function falsifies the contract or panics.  The search never decides: a failed
-obligation is reported whether or not an input is found.
+Verus gives no counterexample, and a code edit can break the proof SCRIPT (a renamed loop, a lost anchor) rather than
+the property.  Each unit may therefore ship `units/<unit>/witness.rs`: test functions that evaluate an executable
+mirror of the unit's top-level postconditions (written from the contract, over i128 / small models) on a boundary
+lattice or an exhaustively enumerated small domain, against the real functions.  The file is appended, as
+`#[cfg(test)] mod verif_witness { include!(..) }`, to a scratch copy of the crate (so private functions are reachable)
+and run with `cargo test`.  A line `WITNESS {json}` printed by it is a concrete failing input: a fact about the code,
+reported as a violation whatever the state of the proof.  Finding nothing decides nothing.
 """
 import json
 import os
+import re
 import shutil
 import subprocess
 import tempfile
 
 VERIF = os.path.dirname(os.path.dirname(os.path.abspath(__file__)))
 REPO = os.environ.get("VERIF_REPO", "/repo")
+SCRATCH_ROOT = os.environ.get("VERIF_SCRATCH", "/var/tmp")
+
+
+def _meta(unit):
+    p = os.path.join(VERIF, "units", unit, "witness.json")
+    if not os.path.exists(p):
+        return None
+    with open(p) as f:
+        return json.load(f)
+
+
+def available(unit):
+    return _meta(unit) is not None
+
+
+def run(unit, only=None, timeout=1500):
+    """returns (list of witness dicts, info string)"""
+    m = _meta(unit)
+    if m is None:
+        return [], "no witness driver for unit %s" % unit
+    scratch = tempfile.mkdtemp(prefix="verif-witness-%s-" % unit, dir=SCRATCH_ROOT)
+    try:
+        # copy the workspace (sources only)
+        def ign(d, names):
+            return [n for n in names if n in ("target", ".git")]
+        ws = os.path.join(scratch, "ws")
+        shutil.copytree(REPO, ws, ignore=ign)
+        root = os.path.join(ws, "crates", m["crate_dir"], m.get("root", "src/lib.rs"))
+        with open(root, "a") as f:
+            f.write("\n#[cfg(test)]\nmod verif_witness { include!(\"%s\"); }\n" % os.path.join(VERIF, "units", unit, "witness.rs"))
+        env = dict(os.environ)
+        env["CARGO_NET_OFFLINE"] = "true"
+        env["CARGO_TARGET_DIR"] = os.path.join(SCRATCH_ROOT, "verif-witness-target")   # persistent cache, outside /repo and /verif
+        env["RUSTFLAGS"] = "-Awarnings"
+        cmd = ["cargo", "test", "--offline", "-q", "-p", m["package"], "--lib"] + m.get("cargo_args", []) + ["verif_witness", "--", "--nocapture", "--test-threads", "8"]
+        if only:
+            cmd[cmd.index("verif_witness")] = "verif_witness::" + only
+        try:
+            p = subprocess.run(cmd, cwd=ws, env=env, stdout=subprocess.PIPE, stderr=subprocess.STDOUT, text=True, timeout=timeout)
+            out = p.stdout
+        except subprocess.TimeoutExpired as e:
+            out = (e.stdout.decode() if isinstance(e.stdout, bytes) else (e.stdout or "")) + "\nTIMEOUT"
+        ws_found = []
+        for ln in out.split("\n"):
+            i = ln.find("WITNESS {")
+            if i >= 0:
+                try:
+                    ws_found.append(json.loads(ln[i + len("WITNESS "):]))
+                except Exception:
+                    pass
+        ran = re.search(r"running (\d+) tests?", out)
+        info = "witness driver ran %s test fn(s); %d failing input(s)" % (ran.group(1) if ran else "?", len(ws_found))
+        if "error: could not compile" in out or "error[E" in out:
+            info = "witness driver did not compile against the current tree: " + "\n".join(l for l in out.split("\n") if l.startswith("error"))[:400]
+        return ws_found, info
+    finally:
+        shutil.rmtree(scratch, ignore_errors=True)
 
 
 def search(prop, violation):
     unit = violation.get("unit")
-    wdir = os.path.join(VERIF, "units", unit, "witness")
-    if not os.path.isdir(wdir):
+    if not available(unit):
         return None
-    scratch = tempfile.mkdtemp(prefix="verif-witness-", dir=os.environ.get("VERIF_SCRATCH", "/var/tmp"))
-    try:
-        dst = os.path.join(scratch, "w")
-        shutil.copytree(wdir, dst)
-        shutil.copy(os.path.join(REPO, "Cargo.lock"), os.path.join(dst, "Cargo.lock"))
-        env = dict(os.environ)
-        env["CARGO_NET_OFFLINE"] = "true"
-        env["CARGO_TARGET_DIR"] = os.path.join(scratch, "target")
-        item = (violation.get("item") or "").split(" :: ")[-1].replace("fn ", "")
-        p = subprocess.run(["cargo", "run", "--offline", "-q", "--", item], cwd=dst, env=env, stdout=subprocess.PIPE,
-                           stderr=subprocess.PIPE, text=True, timeout=600)
-        for ln in p.stdout.split("\n"):
-            ln = ln.strip()
-            if ln.startswith("{"):
-                try:
-                    j = json.loads(ln)
-                except Exception:
-                    continue
-                return {"input": j, "source": "boundary-lattice search against the real crate (units/%s/witness)" % unit}
-        return None
-    finally:
-        shutil.rmtree(scratch, ignore_errors=True)
+    fn = (violation.get("item") or "").split(" :: ")[-1].replace("fn ", "").strip()
+    found, info = run(unit)
+    for w in found:
+        if fn and w.get("fn") == fn:
+            return {"input": w, "source": "units/%s/witness.rs against the real crate" % unit, "info": info}
+    if found:
+        return {"input": found[0], "source": "units/%s/witness.rs against the real crate" % unit, "info": info}
+    return None
